@@ -2,7 +2,10 @@ package car
 
 import (
 	"bytes"
+	"context"
 	"io"
+
+	blocks "github.com/ipfs/go-block-format"
 
 	"github.com/ipfs/go-cid"
 	"github.com/ipld/go-car/util"
@@ -116,4 +119,77 @@ func VerifH_C01_RootBlocksStayIntact() {
 	vAssert("next2", err == nil && blk2.Cid().Equals(c2) && vBytesEq(blk2.RawData(), d2))
 	vAssert("first-block-still-intact", vBytesEq(blk1.RawData(), d1))
 	vCover("two-archives-read", true)
+}
+
+type vRecStore struct {
+	blks []blocks.Block
+}
+
+func (s *vRecStore) Put(ctx context.Context, b blocks.Block) error {
+	s.blks = append(s.blks, b)
+	return nil
+}
+
+type vRecBatchStore struct {
+	vRecStore
+}
+
+func (s *vRecBatchStore) PutMany(ctx context.Context, bs []blocks.Block) error {
+	s.blks = append(s.blks, bs...)
+	return nil
+}
+
+// VerifH_C02_RootLoadCar: the root-module loaders (Put and PutMany paths) over a valid header and
+// N arbitrary bytes cut anywhere: LoadCar succeeds iff a CarReader scan of the same bytes ends in a
+// clean end of archive, and then it stored exactly the scanned blocks.
+func VerifH_C02_RootLoadCar() {
+	N := 7
+	if vTier() == 1 {
+		N = 10
+	}
+	root := vCidID("root")
+	hdr := vRootHeader(root)
+	in := vBytes("in", N)
+	n := vInt("n")
+	vAssume(n >= 0 && n <= N)
+	file := append(append([]byte{}, hdr...), in[:n]...)
+	// reference: scan with Next
+	cr, err := NewCarReader(&vStream{data: file})
+	vAssert("open", err == nil)
+	var want []blocks.Block
+	clean := false
+	for i := 0; i <= N; i++ {
+		b, err := cr.Next()
+		if err == io.EOF {
+			clean = true
+			break
+		}
+		if err != nil {
+			break
+		}
+		want = append(want, b)
+	}
+	ctx := context.Background()
+	var got []blocks.Block
+	var lerr error
+	if vChoose("batch", 2) == 1 {
+		st := &vRecBatchStore{}
+		_, lerr = LoadCar(ctx, st, &vStream{data: file})
+		got = st.blks
+	} else {
+		st := &vRecStore{}
+		_, lerr = LoadCar(ctx, st, &vStream{data: file})
+		got = st.blks
+	}
+	vAssert("load-ok-iff-scan-clean", (lerr == nil) == clean)
+	if lerr == nil {
+		vAssert("loaded-count", len(got) == len(want))
+		for i := range want {
+			if i < len(got) {
+				vAssert("loaded-blocks", got[i].Cid().Equals(want[i].Cid()) && vBytesEq(got[i].RawData(), want[i].RawData()))
+			}
+		}
+		vCover("loaded-some", len(got) > 0)
+	}
+	vCover("load-refused", lerr != nil)
 }
